@@ -22,8 +22,9 @@ func init() {
 			"(4) writer==reader: the two extracted schemas agree directly (what AppendTo writes is what ReadFrom consumes, same fields); " +
 			"(5) default==definition: the stores of every generated Default() are exactly the explicit defaults of the definition, recursively through embedded structs; " +
 			"(6) struct fields, Key(), MaxVersion(), IsFlexible() threshold and the ReadFrom/UnsafeReadFrom wrappers match the definition; every AppendTo/readFrom/Default of package kmsg is either validated or a listed exclusion; " +
-			"(7) composite kbin append primitives (strings, bytes, array lengths, varint wrappers) symbolically evaluate to the length-prefix + payload sequence of the README wire format over the leaf encoders, for every input (a length-conditional fast path is checked against the uvarint byte boundary).",
-		NotDecided: "agreement of the definitions with Apache Kafka's JSON message definitions (not in the sandbox); the leaf encoders/decoders of kbin (AppendUint16/32/64, AppendUvarint, appendUvarlong, AppendBool/Int8 and all kbin.Reader methods: C17/C16); hand-written codecs, listed by name as `excluded` obligations: Record (pkg/kmsg/record.go; its definition is commented out in definitions/misc because of the varint->varlong timestamp switch) and StickyMemberMetadata (pkg/kmsg/api.go; `no encoding`, custom v1->v0 fallback); Tags.AppendEach/Set/internalReadTags internals; behaviour of ReadFrom into a dirty (reused) value beyond the Default() call; versions outside 0..MaxVersion.",
+			"(7) composite kbin append primitives (strings, bytes, array lengths, varint wrappers) symbolically evaluate to the length-prefix + payload sequence of the README wire format over the leaf encoders, for every input (a length-conditional fast path is checked against the uvarint byte boundary); " +
+			"(8) tags-container (hand-written kmsg.Tags, the sink and source of all unknown tags): Set stores every (key, val) unconditionally into the map it allocates on demand (no return, delete or condition on the tag); Len is len(map); Each visits every stored key once in ascending key order; AppendEach writes uvarint key, uvarint len(val), val per tag; internalReadTags/ReadTags loop over the count read and store each tag under the key read with b.Span of exactly the size read.",
+		NotDecided: "agreement of the definitions with Apache Kafka's JSON message definitions (not in the sandbox); the leaf encoders/decoders of kbin (AppendUint16/32/64, AppendUvarint, appendUvarlong, AppendBool/Int8 and all kbin.Reader methods: C17/C16); hand-written codecs, listed by name as `excluded` obligations: Record (pkg/kmsg/record.go; its definition is commented out in definitions/misc because of the varint->varlong timestamp switch) and StickyMemberMetadata (pkg/kmsg/api.go; `no encoding`, custom v1->v0 fallback); value-level behaviour of Tags beyond the structural clauses of (8) (e.g. aliasing of the stored slice with the input buffer, SkipTags); behaviour of ReadFrom into a dirty (reused) value beyond the Default() call; versions outside 0..MaxVersion.",
 		Assumptions: []string{
 			"generate/README.md describes the wire format of each DSL type (sizes, compact encodings from the flexible version on, tag sections)",
 			"kbin leaf primitives mean what their names say (C17)",
@@ -136,6 +137,9 @@ func runC15(c *Ctx) {
 
 	// (7) kbin composites
 	c15Kbin(c, m)
+
+	// (8) the unknown-tag container
+	c15Tags(c, m)
 
 	c.Set("programs", len(r.goOf))
 	c.Set("codec_types", nCodec)
